@@ -905,6 +905,19 @@ func c07EOFUnwrapped(c *Ctx) {
 		for _, fn := range fns {
 			sites = append(sites, c.fnAt(fn))
 		}
+		// liveness: the region must contain the stream read whose error this rule is about
+		live := false
+		for _, fn := range fns {
+			eachInstr(fn, func(i ssa.Instruction) {
+				if call, isCall := i.(*ssa.Call); isCall && isStreamRead(call) {
+					live = true
+				}
+			})
+		}
+		if !live {
+			c.Undecided(key, rule, "no stream read (encoding/csv, encoding/gob, bufio, io) found in the decoder: the reader's error cannot be identified", sites...)
+			continue
+		}
 		if len(bad) > 0 {
 			c.Fail(key, rule, "an error that may be io.EOF is wrapped before it is returned: consumers comparing with io.EOF never see the end of the stream", c.ats(bad)...)
 			continue
